@@ -20,6 +20,11 @@
   random-access getter passed to `get_group_view`/`get_data_view` is the pure
   position function of `Rt.Walk` (its own internal size checks are C10's
   subject); comparing `nullptr + offset` with an address is taken to be false.
+
+  Tie to the C++ text: the 48 accessor methods below are re-translated from
+  `sbepp.hpp` on every check run (`extract/methods_cursor.py` →
+  `Sbepp.Extracted.CursorMethods`, target language `Rt/CursorDsl.lean`) and
+  proved equal to these definitions in `Lemmas/CursorTie.lean`.
 -/
 import Sbepp.Rt.Walk
 import Sbepp.Gen.CursorOffsets
@@ -323,10 +328,10 @@ def get_value (v : LView) (buf : List Nat) (ptr : Option Nat) (offset abs size :
   let p ← deref ptr
   .ok ⟨.void, some (p + offset + size), buf⟩
 
+/-- no access through the cursor: with checks compiled out a null cursor is simply overwritten -/
 def get_last_value (v : LView) (buf : List Nat) (ptr : Option Nat) (offset abs size : Nat) : Out Step := do
   assertCursor v.endp (atField v ptr offset abs)
   sizeCheck v.endp ptr offset size
-  let _ ← deref ptr
   .ok ⟨.void, some v.blockEnd, buf⟩
 
 def get_static_field_view (v : LView) (buf : List Nat) (ptr : Option Nat) (offset abs size : Nat) : Out Step := do
@@ -338,7 +343,6 @@ def get_static_field_view (v : LView) (buf : List Nat) (ptr : Option Nat) (offse
 def get_last_static_field_view (v : LView) (buf : List Nat) (ptr : Option Nat) (offset abs _size : Nat) : Out Step := do
   assertCursor v.endp (atField v ptr offset abs)
   sizeCheck v.endp ptr offset 0
-  let _ ← deref ptr
   .ok ⟨.void, some v.blockEnd, buf⟩
 
 /-- moves past the *whole* group (`g(size_bytes_tag)`), not only its header -/
